@@ -1,0 +1,31 @@
+//! Verification hooks, compiled only with `--cfg pavex_verif`.
+//!
+//! Thin forwarders to crate-private items, so that an external harness can drive the real
+//! code in-process. Nothing in here is reachable in a normal build.
+use std::collections::BTreeSet;
+
+use crate::compiler::analyses::domain::DomainGuard;
+
+/// `DomainGuard::new` on `input`.
+///
+/// On success: the guard as displayed (i.e. after normalisation) and its `matchit` pattern.
+/// On failure: the `Debug` rendering of the `InvalidDomainConstraint` error.
+pub fn domain_guard(input: &str) -> Result<(String, String), String> {
+    DomainGuard::new(input.to_owned())
+        .map(|g| (g.to_string(), g.matchit_pattern()))
+        .map_err(|e| format!("{e:?}"))
+}
+
+/// The `matchit` patterns of the given (valid) guards, in the iteration order of a
+/// `BTreeMap<DomainGuard, _>`: the order in which both the conflict detection and the
+/// generated `domain_router` insert them. Invalid guards are skipped.
+pub fn domain_guard_patterns_in_router_order(inputs: &[String]) -> Vec<(String, String)> {
+    let guards: BTreeSet<DomainGuard> = inputs
+        .iter()
+        .filter_map(|i| DomainGuard::new(i.clone()).ok())
+        .collect();
+    guards
+        .iter()
+        .map(|g| (g.to_string(), g.matchit_pattern()))
+        .collect()
+}
